@@ -309,3 +309,6 @@ def run(rep, program: Program, tier: str) -> None:
     # "the input state object is never modified": step() works on state.copy() and the flows update the copy in place,
     # so the copy must own its variable arrays (and its cache dict) for every kind of state (shared with C09-R3)
     rep.isolate(c09.rule_r3, rep, program, prop=PROP, rule="R7")
+    # a force that accumulates into the cached gradient differs between the closing half-kick of one step and the opening
+    # half-kick of the reversed step: the half-kicks no longer cancel (shared with C09-R9)
+    rep.isolate(c09.rule_r9, rep, program, prop=PROP, rule="R8")
